@@ -1068,7 +1068,7 @@ def oracle_maxvol(tn, A, e, k, cond=1e3):
     if px.n_outer > k:
         return f'maxvol: {px.n_outer} swaps with iteration limit {k}'
     if px.n_outer < k and not np.abs(B).max() <= e * (1 + 1e-9):
-        return f'maxvol: iteration limit {k} not hit ({px.n_outer} swaps) but max|B| = {np.abs(B).max()!r} > e = {e}'
+        return f'maxvol: iteration limit {k} not hit ({px.n_outer} swaps) but max|B| = {float(np.abs(B).max())!r} > e = {e}'
     return None
 
 
